@@ -3,6 +3,7 @@ package common
 import (
 	"encoding/json"
 	"fmt"
+	"sort"
 
 	r "github.com/DemoHn/Zn/pkg/runtime"
 	"github.com/DemoHn/Zn/pkg/value"
@@ -91,8 +92,14 @@ func buildElementFromPlainValue(item any) r.Element {
 		return value.NewBool(vv)
 	case map[string]any:
 		target := value.NewEmptyHashMap()
-		for k, v := range vv {
-			finalValue := buildElementFromPlainValue(v)
+		// iterate keys in sorted order so that the key order of the result is reproducible
+		keys := make([]string, 0, len(vv))
+		for k := range vv {
+			keys = append(keys, k)
+		}
+		sort.Strings(keys)
+		for _, k := range keys {
+			finalValue := buildElementFromPlainValue(vv[k])
 			target.AppendKVPair(value.KVPair{
 				Key:   k,
 				Value: finalValue,
